@@ -212,6 +212,29 @@ class Fn:
         """Lean Bool for a C condition"""
         n0 = strip(n)
         k = n0.get('kind')
+        if k == 'BinaryOperator' and n0['opcode'] in ('==', '!='):
+            def is_null(x):
+                x = strip(x)
+                while x.get('kind') in ('CStyleCastExpr', 'ImplicitCastExpr', 'ParenExpr'):
+                    x = strip(x['inner'][0])
+                return x.get('kind') == 'IntegerLiteral' and x.get('value') == '0'
+            def unc(x):
+                x = strip(x)
+                while x.get('kind') in ('CStyleCastExpr', 'ImplicitCastExpr', 'ParenExpr') and \
+                        (kind_of(qt(x)) or '').startswith('p:'):
+                    x = strip(x['inner'][0])
+                return x
+            sides = [unc(x) for x in n0['inner']]
+            if all((kind_of(qt(x)) or '') == 'p:?' and x.get('kind') == 'DeclRefExpr' for x in sides):
+                a, b = [x['referencedDecl']['name'] for x in sides]
+                nm = self.free('v_%s__same__%s' % (a, b), 'b', ('same', a, b))
+                return nm if n0['opcode'] == '==' else '(!%s)' % nm
+            for a_, b_ in ((sides[0], sides[1]), (sides[1], sides[0])):
+                if (kind_of(qt(a_)) or '').startswith('p:') and a_.get('kind') == 'DeclRefExpr' and \
+                   a_['referencedDecl'].get('kind') == 'ParmVarDecl' and is_null(b_):
+                    # a pointer PARAMETER compared with NULL: the translation is for supplied (non-NULL) arguments; the
+                    # NULL convention ("allocate the result") is the same code run on a fresh mzd_init matrix
+                    return 'false' if n0['opcode'] == '==' else 'true'
         if k == 'BinaryOperator' and n0['opcode'] in ('==', '!=') and \
            all((kind_of(qt(strip(x))) or '') == 'p:?' and strip(x).get('kind') == 'DeclRefExpr' for x in n0['inner']):
             # identity of two struct pointers (e.g. `A == B`): a Boolean parameter
@@ -676,9 +699,24 @@ class Fn:
                         mem = self.ptr_mem[b['referencedDecl']['name']]
                         if mem not in out:
                             out.append(mem)
+            if k == 'CallExpr' and strip(n['inner'][0]).get('referencedDecl', {}).get('name') in ('memcpy', '__builtin_memcpy', '__builtin___memcpy_chk'):
+                d_ = strip(n['inner'][1])
+                while d_.get('kind') in ('CStyleCastExpr', 'ImplicitCastExpr'):
+                    d_ = strip(d_['inner'][0])
+                while d_.get('kind') == 'BinaryOperator' and d_['opcode'] in ('+', '-'):
+                    d_ = strip(d_['inner'][0])
+                mc_ = self.mzd_row_call(d_)
+                nm_ = None
+                if mc_:
+                    nm_ = 'mem_' + self.malias_pre.get(mc_[0], mc_[0])
+                elif d_.get('kind') == 'DeclRefExpr' and d_['referencedDecl']['name'] in self.ptr_mem:
+                    nm_ = self.ptr_mem[d_['referencedDecl']['name']]
+                if nm_ and nm_ not in out:
+                    out.append(nm_)
             if k == 'CallExpr':
                 cal = strip(n['inner'][0])
-                sig = self.tr.sigs.get(cal.get('referencedDecl', {}).get('name')) if cal.get('kind') == 'DeclRefExpr' else None
+                sig = self.tr.sigs.get(cal.get('referencedDecl', {}).get('name')) if cal.get('kind') == 'DeclRefExpr' and \
+                    cal.get('referencedDecl', {}).get('name') not in (self.tr.externs or {}) else None
                 def root_of(node):
                     a = strip(node)
                     while a.get('kind') in ('CStyleCastExpr', 'ImplicitCastExpr'):
@@ -1010,6 +1048,12 @@ class Fn:
             els = parts[2] if len(parts) > 2 else None
             tl, el = self.body_list(then), self.body_list(els)
             c = self.boolean(cond)
+            if c == 'false':
+                return self.seq(el + rest, k_final, ind) if self.has(el, ('ReturnStmt', 'BreakStmt', 'ContinueStmt')) else \
+                    self.seq([dict(kind='CompoundStmt', inner=el)] + rest, k_final, ind)
+            if c == 'true':
+                return self.seq(tl + rest, k_final, ind) if self.has(tl, ('ReturnStmt', 'BreakStmt', 'ContinueStmt')) else \
+                    self.seq([dict(kind='CompoundStmt', inner=tl)] + rest, k_final, ind)
             if self.has(tl + el, ('ReturnStmt', 'BreakStmt', 'ContinueStmt')):
                 return '%sif %s then\n%s\n%selse\n%s' % (pad, c, self.scoped(lambda: self.seq(tl + rest, k_final, ind + 1)), pad,
                                                          self.scoped(lambda: self.seq(el + rest, k_final, ind + 1)))
@@ -1093,9 +1137,15 @@ class Fn:
             if callee.get('kind') == 'DeclRefExpr' and callee['referencedDecl']['name'] in ('m4ri_die', '__assert_fail', 'assert'):
                 return self.seq(rest, k_final, ind)
             fname = callee.get('referencedDecl', {}).get('name')
+            if fname in ('memcpy', '__builtin_memcpy', '__builtin___memcpy_chk'):
+                dmem, drow, doff = self.ptr_expr(s['inner'][1])
+                smem, srow, soff = self.ptr_expr(s['inner'][2])
+                nwords = self.sizeof_words(s['inner'][3])
+                return '%slet %s : %s := (CLoop.copyWords %s %s %s (fun j => %s %s (%s + j)) %s)\n%s' % (
+                    pad, V(dmem), LTYPE['m2'], V(dmem), drow, doff, V(smem), srow, soff, nwords, self.seq(rest, k_final, ind))
             if fname in ('mzd_free_window', 'mzp_free_window', 'mzd_free', 'mzp_free'):
                 return self.seq(rest, k_final, ind)      # releases a header / block: no effect on the modelled memories
-            sig = self.tr.sigs.get(fname)
+            sig = self.tr.sigs.get(fname) if fname not in (self.tr.externs or {}) else None
             if sig and sig['void_outs'] is not None and not sig['outparams']:
                 args = self.call_args(sig, s['inner'][1:])
                 # the callee returns the new contents of the memories it writes: bind them to the caller's memories
@@ -1153,6 +1203,22 @@ class Fn:
         for f_, k_ in (('nrows', 'i'), ('ncols', 'i'), ('width', 'i'), ('high_bitmask', 'w'), ('rowstride', 'i'), ('flags', 'c')):
             self.locals['%s_%s' % (nm, f_)] = k_
         return out
+
+    def sizeof_words(self, n):
+        """`sizeof(word) * e` (a byte count that is a whole number of words) -> Lean term of `e`"""
+        n = strip(n)
+        while n.get('kind') in ('CStyleCastExpr', 'ImplicitCastExpr'):
+            n = strip(n['inner'][0])
+        if n.get('kind') == 'BinaryOperator' and n['opcode'] == '*':
+            a, b = [strip(x) for x in n['inner']]
+            for x, y in ((a, b), (b, a)):
+                x0 = x
+                while x0.get('kind') in ('CStyleCastExpr', 'ImplicitCastExpr', 'ParenExpr'):
+                    x0 = strip(x0['inner'][0])
+                if x0.get('kind') == 'UnaryExprOrTypeTraitExpr' and x0.get('name') == 'sizeof' and \
+                   norm_type(x0.get('argType', {}).get('qualType', '')) in ('word', 'uint64_t'):
+                    return self.as_int(y)
+        raise CTransError('%s: memcpy size is not sizeof(word) * n' % self.name)
 
     def writeback(self, y, resname, pad):
         """bind the memory a callee returned for its matrix argument `y` to the caller's root memory"""
@@ -1906,6 +1972,17 @@ def catalogue(t):
       fuels=['(v_M_ncols).toNat', '(v_M_nrows).toNat', '(v_M_nrows).toNat'])
     F('m4ri/mzp.c', 'mzd_apply_p_left', 'mzdApplyPLeft', fuels=['(v_A_nrows).toNat'])
     F('m4ri/mzp.c', 'mzd_apply_p_left_trans', 'mzdApplyPLeftTrans', fuels=['(v_A_nrows).toNat'])
+    F('m4ri/mzd.c', 'mzd_copy', 'mzdCopy', retparam='N', fuels=['(v_P_nrows).toNat', '(v_P_width).toNat'],
+      doc='for a supplied destination N')
+    F('m4ri/mzd.c', 'mzd_submatrix', 'mzdSubmatrix', retparam='S',
+      fuels=['(v_endrow - v_startrow).toNat', '(v_endrow - v_startrow).toNat', '(v_endrow - v_startrow).toNat', '(v_endcol - v_startcol).toNat'],
+      doc='for a supplied destination S: aligned path (memcpy of whole words + masked last word) and unaligned path')
+    F('m4ri/mzd.c', 'mzd_concat', 'mzdConcat', retparam='C',
+      fuels=['(v_A_nrows).toNat', '(v_A_width).toNat', '(v_B_nrows).toNat', '(v_B_ncols).toNat'],
+      doc='for a supplied destination C')
+    F('m4ri/mzd.c', 'mzd_stack', 'mzdStack', retparam='C',
+      fuels=['(v_A_nrows).toNat', '(v_A_width).toNat', '(v_B_nrows).toNat', '(v_B_width).toNat'],
+      doc='for a supplied destination C')
     F('m4ri/mzd.c', 'mzd_set_ui', 'mzdSetUi', fuels=['(v_A_nrows).toNat', '(v_A_width).toNat', '(v_A_nrows).toNat'])
     TRSM = dict(mats=(0, 1), writes=(1,))
     PLUQ = dict(mats=(0,), perms=(1, 2), ret='i', writes=(0,), pwrites=(1, 2))
@@ -2040,6 +2117,9 @@ structure MView where
   ncols : Int
   width : Int
   hb : BitVec 64
+/-- `memcpy` of `n` whole words into row `r` from word `o` on -/
+def copyWords (m : Int → Int → BitVec 64) (r o : Int) (src : Int → BitVec 64) (n : Int) : Int → Int → BitVec 64 :=
+  fun r' w' => if r' = r ∧ o ≤ w' ∧ w' < o + n then src (w' - o) else m r' w'
 /-- store into a 1-dimensional integer array -/
 def upd1 (m : Int → Int) (i v : Int) : Int → Int := fun i' => if i' = i then v else m i'
 /-- a constant local array -/
